@@ -37,7 +37,7 @@ POOLS = {
     'p3': [('a', 'YX', 5), ('b', '', 1), ('c', 'X', 5), ('d', 'Y', 1), ('e', 'XY', 0)],
     'p4': [('a', 'XY', 1), ('b', 'XY', 1), ('c', 'X', 0), ('d', 'X', 0), ('e', 'Y', None)],
 }
-TAGS = [None, 0, 1, 5, 9]
+TAGS = [None, 0, 1, 5, 9, 'np1', 'np0']        # np1 / np0: the tags 1 and 0 given as numpy integer scalars
 
 META = {
     'rule': 'BFS over add/remove histories of a 4-5 agent pool to the fixpoint; in every state all templates (ordered, '
@@ -57,7 +57,16 @@ def templates():
     out = [()]
     for n in (1, 2, 3):
         out += list(itertools.permutations('XYZ', n))
+    out += [('X', 'X'), ('Y', 'X', 'Y'), ('X', 'X', 'X', 'X')]      # a type listed more than once changes nothing
     return out
+
+
+def tag_value(tag):
+    if tag == 'np1':
+        return np.int64(1)
+    if tag == 'np0':
+        return np.uint8(0)
+    return tag
 
 
 TEMPLATES = templates()
@@ -133,7 +142,7 @@ class Harness:
         for k in w.order:
             _, comps, t = spec[k]
             t = 0 if t is None else t
-            if all(c in comps for c in tmpl) and (tag is None or t == tag):
+            if all(c in comps for c in tmpl) and (tag is None or t == tag_value(tag)):
                 out.append(k)
         return out
 
@@ -155,7 +164,7 @@ class Harness:
         for tmpl in TEMPLATES:
             targs = [TYPES[t] for t in tmpl]
             for tag in TAGS:
-                kw = {} if tag is None else {'tag': tag}
+                kw = {} if tag is None else {'tag': tag_value(tag)}
                 exp = self._ref(w, tmpl, tag)
                 what = f'residents {w.order} template {list(tmpl)} tag {tag}'
                 got = env.get_agents(*targs, **kw)
@@ -265,7 +274,74 @@ class Harness:
         return w.last
 
 
+def in_system_case(case):
+    """Queries made from inside one System.execute(): the same query is repeated after an agent was re-tagged, after a
+    component was attached to / detached from a resident, and after an agent joined - each answer reflects the
+    environment at the time of the call."""
+    from mc.engine.seams import reset_library
+    reset_library()
+    m = Core.Model(seed=1)
+    env = m.environment
+    spec = POOLS[case['pool']]
+    agents = {}
+    for key, comps, tag in spec:
+        a = Core.Agent(key, m) if tag is None else Core.Agent(key, m, tag=tag)
+        for t in comps:
+            a.add_component(TYPES[t](a, m))
+        agents[key] = a
+        if key != spec[-1][0]:
+            env.add_agent(a)
+    late = agents[spec[-1][0]]
+    failures = []
+
+    def ref(tmpl, tag):
+        return [a for a in env if all(TYPES[t] in a for t in tmpl) and (tag is None or a.tag == tag)]
+
+    class Sys(Core.System):
+        def execute(self):
+            first = agents[spec[0][0]]
+            steps = [lambda: None,
+                     lambda: setattr(first, 'tag', 1 if first.tag != 1 else 0),
+                     lambda: first.add_component(Z(first, m)),
+                     lambda: first.remove_component(Z),
+                     lambda: env.add_agent(late),
+                     lambda: setattr(late, 'tag', 5),
+                     lambda: env.remove_agent(spec[1][0])]
+            for i, step in enumerate(steps):
+                step()
+                for tmpl in ((), ('X',), ('Z',), ('X', 'Y')):
+                    for tag in (None, 0, 1, 5):
+                        kw = {} if tag is None else {'tag': tag}
+                        got = env.get_agents(*[TYPES[t] for t in tmpl], **kw)
+                        if got != ref(tmpl, tag):
+                            failures.append((i, tmpl, tag, [a.id for a in ref(tmpl, tag)], [a.id for a in got]))
+                        pick = env.get_random_agent(*[TYPES[t] for t in tmpl], **kw)
+                        if (pick is None) != (not ref(tmpl, tag)) or (pick is not None and pick not in ref(tmpl, tag)):
+                            failures.append((i, tmpl, tag, 'pick', getattr(pick, 'id', None)))
+                        sh = env.shuffle(*[TYPES[t] for t in tmpl], **kw)
+                        if sorted(a.id for a in sh) != sorted(a.id for a in ref(tmpl, tag)):
+                            failures.append((i, tmpl, tag, 'shuffle', [a.id for a in sh]))
+
+    m.systems.add_system(Sys('s', m))
+    m.execute()
+    if failures:
+        i, tmpl, tag = failures[0][:3]
+        raise Violation(f'inside System.execute, after change #{i} (0 none, 1 re-tag, 2 attach, 3 detach, 4 join, 5 re-tag '
+                        f'newcomer, 6 leave): query template {list(tmpl)} tag {tag} does not reflect the environment',
+                        expected=failures[0][3], observed=failures[0][4])
+    return 7 * 16
+
+
 def run(ctx):
+    for p in POOLS:
+        case = {'leg': 'in_system', 'pool': p}
+        ctx.traces += 1
+        try:
+            ctx.transitions += hbfs._guard(in_system_case, case)
+        except Violation as v:
+            ctx.report(case, v)
+            return
+    ctx.leg('in_system', pools=len(POOLS))
     pools = ['p1', 'p2'] if ctx.tier == 'quick' else list(POOLS)
     for p in pools:
         h = Harness(p, ctx.seed)
@@ -278,4 +354,7 @@ def run(ctx):
 
 
 def replay(case):
+    if case['leg'] == 'in_system':
+        hbfs._guard(in_system_case, case)
+        return
     hbfs.replay_case(Harness(case['config']['pool'], case.get('seed', 0)), case)
